@@ -463,7 +463,8 @@ impl<'a> RawFile<'a> {
                 warnings,
             );
         }
-        if s.ne > 255 {
+        // TFtoPL.2014.21 and PLtoTF.2014.139 allow up to 256 extensible recipes.
+        if s.ne > 256 {
             return (
                 Err(DeserializationError::TooManyExtensibleCharacters(s.ne)),
                 warnings,
